@@ -23,7 +23,7 @@ RULE = ("track histories over add_notes(content form, value) / add_notes(None, v
         "(depth <= 3, None = rest). Compositions of 1-4 tracks with generated selected_tracks. Non-trivial: a history that opens "
         ">= 2 bars, contains a refusal or a range error, or a rest with an instrument attached; a chord list with nesting or a "
         "split across a bar line; a composition with >= 2 tracks and a partial selection."
-        " Also: every single-value fill of a track bar followed by three more items; re-attaching another instrument mid-history; an out-of-range note at every position of every content form (incl. containers edited after they were built); from_chords with a tuning attached; compositions with 'tight' tracks that refuse a quarter.")
+        " Also: every single-value fill of a track bar followed by three more items; re-attaching another instrument mid-history; an out-of-range note at every position of every content form (incl. containers edited after they were built); from_chords with a tuning attached; compositions with 'tight' tracks that refuse a quarter. from_chords with every instrument kind and with generic instruments narrowed by set_range (the first out-of-range chord raises the range error and is not placed); objects shared between the tracks of a composition are found by identity.")
 ASSUMPTIONS = ["Composition defines no equality: only 'equals itself, differs from different content' is asserted",
                "add_bar of a partially filled bar in the middle of a track is not generated",
                "from_chords items are at most one bar long (the remainder of a split must fit in the next bar)",
@@ -276,10 +276,39 @@ def _merge(seq):
 
 def check_from_chords(ctx, case):
     chordlist, dur, meter = case["chords"], case["duration"], case["meter"]
-    track = Track()
+    instr = case.get("instr") or "none"
+    if isinstance(instr, list):  # a generic instrument narrowed with set_range: ["narrow", lowest pitch, highest pitch]
+        ins = Instrument()
+        ins.set_range((Note().from_int(instr[1]), Note().from_int(instr[2])))
+        lo, hi, most = instr[1], instr[2], 99
+    else:
+        ins = _instr(instr)
+        lo, hi, most = RANGES[instr] or (None, None, None)
+    track = Track(ins)
     key = case.get("key", "C") if meter is not None else "C"
     if meter is not None:
         track.add_bar(Bar(key, (meter[0], meter[1])))
+    req = []
+    for c in chordlist:
+        _flatten(c, dur, req)
+    exp_nc = [None if c is None else NoteContainer().from_chord(c) for c, _ in req]
+    first_bad = None
+    if lo is not None:
+        for i, nc in enumerate(exp_nc):
+            if nc is not None and (len(nc) > most or any(not lo <= int(n) <= hi for n in nc)):
+                first_bad = i
+                break
+    if first_bad is not None:
+        # "a note outside the attached instrument's range is refused with the range error": the chords before it are on the
+        # track, the refused chord and everything after it are not
+        ctx.raises("from_chords/out-of-range", (InstrumentRangeError,), track.from_chords, chordlist, dur)
+        exp = _merge([[None if nc is None else mg.nc_snapshot(nc), l] for nc, (_, l) in zip(exp_nc[:first_bad], req)])
+        got = _merge([[mg.nc_snapshot(e[2]), _exact_len(e[1])] for e in track.get_notes()])
+        ok = len(got) == len(exp) and all(g[0] == e[0] and abs(g[1] - e[1]) <= Fr(1, 10 ** 9) for g, e in zip(got, exp))
+        ctx.check(ok, "from_chords/out-of-range-chord-placed", lambda: "instrument %r, chords %r dur %r: item %d is out of range, track has %r" % (
+            instr, chordlist, dur, first_bad, [(g[0], float(g[1])) for g in got]))
+        ctx.note_case(True, ["from_chords:range-error"])
+        return
     r = ctx.ok("from_chords", track.from_chords, chordlist, dur)
     if failed(r):
         return
@@ -288,21 +317,19 @@ def check_from_chords(ctx, case):
     want_meter = tuple(meter) if meter is not None else (4, 4)
     ctx.check(all(b.key.key == key and tuple(b.meter) == want_meter for b in track.bars), "from_chords/bars-inherit-key-and-meter",
               lambda: "started in %r %r: bars are in %r" % (key, want_meter, [(b.key.key, tuple(b.meter)) for b in track.bars]))
-    req = []
-    for c in chordlist:
-        _flatten(c, dur, req)
     exp = _merge([[None if c is None else mg.nc_snapshot(NoteContainer().from_chord(c)), l] for c, l in req])
     got = _merge([[mg.nc_snapshot(e[2]), _exact_len(e[1])] for e in track.get_notes()])
     ok = len(got) == len(exp) and all(g[0] == e[0] and abs(g[1] - e[1]) <= Fr(1, 10 ** 9) for g, e in zip(got, exp))
-    ctx.check(ok, "from_chords/sequence", lambda: "chords %r dur %r meter %r: track has %r, requested %r" % (
-        chordlist, dur, meter, [(g[0], float(g[1])) for g in got], [(e[0], float(e[1])) for e in exp]))
+    ctx.check(ok, "from_chords/sequence", lambda: "instrument %r chords %r dur %r meter %r: track has %r, requested %r" % (
+        instr, chordlist, dur, meter, [(g[0], float(g[1])) for g in got], [(e[0], float(e[1])) for e in exp]))
     tot = sum((e[1] for e in exp), Fr(0))
     gtot = sum((g[1] for g in got), Fr(0))
     ctx.check(abs(tot - gtot) <= Fr(1, 10 ** 9), "from_chords/total-length", lambda: "total %s, requested %s" % (float(gtot), float(tot)))
     ctx.check(all(b.is_full() for b in track.bars[:-1]), "from_chords/all-but-last-full", "")
     nested = any(isinstance(c, list) for c in chordlist)
     ctx.note_case(nested or len(track.bars) > 1, ["from_chords:nested" if nested else "from_chords:flat",
-                                                   "from_chords:rest" if any(c is None for c, _ in req) else "from_chords:no-rest"])
+                                                   "from_chords:rest" if any(c is None for c, _ in req) else "from_chords:no-rest",
+                                                   "from_chords:instr:" + (instr if isinstance(instr, str) else "narrowed")])
 
 
 def check_from_chords_tuned(ctx, case):
@@ -352,6 +379,7 @@ def check_composition(ctx, case):
     models = []  # per track: TrackModel
     sel = []
     flags = set()
+    kept, handed = [], set()  # the caller's own argument objects (kept alive so that identities stay meaningful)
     for k, op in enumerate(ops):
         where = "step %d %r" % (k, op)
         name = op[0]
@@ -396,6 +424,10 @@ def check_composition(ctx, case):
                 continue
             form, notes = op[1], op[2]
             arg = mg.build_content(form, notes)
+            kept.append(arg)
+            for o in ([arg] + list(arg) if isinstance(arg, (list, NoteContainer)) else [arg]):
+                if isinstance(o, (Note, NoteContainer)):
+                    handed.add(id(o))
             before = [mg.track_snapshot(t) for t in tracks]
             r = ctx.ok(name, comp.add_note if name == "add_note" else comp.__add__, arg)
             if failed(r):
@@ -428,6 +460,17 @@ def check_composition(ctx, case):
         now = [mg.track_snapshot(x) for j, x in enumerate(tracks) if j != i]
         ctx.check(now == others, "composition/tracks-share-notes",
                   lambda: "augmenting track %d changed another track: %r -> %r" % (i, others, now))
+    # the same by identity, whatever forms were used: an object that sits in two tracks is one the caller handed in
+    seen = {}
+    for i, t in enumerate(tracks):
+        for e in t.get_notes():
+            for o in ([e[2]] + list(e[2]) if e[2] is not None else []):
+                j = seen.setdefault(id(o), i)
+                if j != i and id(o) not in handed:
+                    flags.add("shared")
+                    ctx.check(False, "composition/tracks-share-notes",
+                              lambda: "tracks %d and %d hold the same %s object %r, which the caller did not hand in (ops %r)" % (
+                                  j, i, type(o).__name__, o, ops))
     ctx.check(comp == comp, "composition/equals-itself", "")
     if tracks:
         other = Composition()
@@ -521,8 +564,10 @@ def _chordlist_st():
 def sub_from_chords(ctx, shard, n):
     combos = [[1, None], [2, None], [4, None], [1, [4, 4]], [2, [3, 4]], [4, [3, 4]], [2, [6, 8]], [1, [5, 4]], [1, [2, 2]],
               [2, [2, 4]], [4, [2, 4]], [4, [1, 4]], [1, [12, 8]], [2, [2, 2]]]
-    strat = st.tuples(_chordlist_st(), st.sampled_from(combos), st.sampled_from(T.ALL_KEYS)).map(
-        lambda t: {"chords": t[0], "duration": t[1][0], "meter": t[1][1], "key": t[2]})
+    instrs = st.sampled_from(["none", "none", "generic", "piano", "guitar", "midi", ["narrow", 48, 64], ["narrow", 48, 72], ["narrow", 16, 43],
+                              ["narrow", 50, 96], ["narrow", 48, 67]])
+    strat = st.tuples(_chordlist_st(), st.sampled_from(combos), st.sampled_from(T.ALL_KEYS), instrs).map(
+        lambda t: {"chords": t[0], "duration": t[1][0], "meter": t[1][1], "key": t[2], "instr": t[3]})
     ctx.enumerate("from_chords", check_from_chords, [
         {"chords": ["C", None, "G7", None], "duration": 1, "meter": None},
         {"chords": [["C"], None], "duration": 1, "meter": None},
@@ -531,7 +576,9 @@ def sub_from_chords(ctx, shard, n):
         {"chords": [None, None, "C"], "duration": 1, "meter": [5, 4]},
         {"chords": ["C", "F", "G", "C"], "duration": 2, "meter": [3, 4], "key": "eb"},
         {"chords": ["Am", None, "E7"], "duration": 1, "meter": [6, 8], "key": "F#"},
-    ])
+    ] + [{"chords": ch, "duration": d, "meter": m, "instr": i}
+         for ch in (["C", "Am", "G7"], [None, "C", ["F", "B"]], ["E7#9"], ["C", None, "Db"])
+         for d, m in ((1, None), (2, [3, 4])) for i in ("generic", "piano", "guitar", "midi", ["narrow", 48, 64], ["narrow", 16, 43], ["narrow", 48, 72])])
     ctx.given("from_chords", check_from_chords, strat, 300 if ctx.quick else 10000)
     tuned = st.fixed_dictionaries({"chords": st.lists(st.recursive(st.sampled_from(["C", "Am", "G7", "Em", "D", "F", "Dm7", "E7"]) | st.none(),
                                                                    lambda c: st.lists(c, min_size=1, max_size=2), max_leaves=4), min_size=1, max_size=4),
@@ -555,6 +602,10 @@ def _comp_st():
 
 
 def sub_composition(ctx, shard, n):
+    ctx.enumerate("composition", check_composition, [
+        {"tracks": k, "ops": [["add_track"]] * k + [["select", list(range(k)), neg]] + [[how, form, notes]] * reps}
+        for k in (2, 3, 4) for neg in (0, 1) for how in ("add_note", "plus_note") for reps in (1, 2)
+        for form, notes in (("str", [["C", 4]]), ("bare", [["E", 4]]), ("str", [["Bb", 3]]))])  # '+' takes no lists
     ctx.given("composition", check_composition, _comp_st(), 400 if ctx.quick else 5000)
 
 
